@@ -4,7 +4,7 @@ from ylib import facts as F
 from .common import *  # noqa
 
 
-def version_purity(R, rid, facts, prefix_filter=None):
+def version_purity(R, rid, facts, prefix_filter=None, allowed=None):
     """a function named *_v1 / *V1* must not call anything named *_v2 / *V2* and vice versa."""
     n = 0
     for fn in facts.fns.values():
@@ -25,6 +25,8 @@ def version_purity(R, rid, facts, prefix_filter=None):
                 nm = F.strip_generics(cs.name)
                 last = nm.rsplit("::", 1)[-1]
                 if re.search(r"_v%s$" % other, last) or re.search(r"(Encoder|Decoder)V%s\b" % other, nm):
+                    if allowed and allowed(fn, cs):
+                        continue
                     bad.append("%s @%s" % (nm, cs.loc()))
         R.ob(rid, fn, "version-purity", not bad, "a v%s function calls v%s code: %s" % (ver, other, bad[:3]) if bad else
              "only v%s encoders/decoders/twins are called" % ver, nontrivial=True)
